@@ -32,6 +32,18 @@ CHECKS = {
         "16 isolated worker processes call every byte-level entry point on structure-aware mutations of valid inputs and on size-parameterised adversarial templates, built with overflow checks on; a supervisor decides crash / panic / CPU bound exceeded / allocation unrelated to input size per case. Held = no such event on the cases of this run (counts per entry point and mutator in the evidence).",
         "Says nothing about inputs not generated. CPU bound 5 s + 50 us/byte; allocation bound max(64 MiB, 4096 x len) per request, 256 MiB + 8192 x len peak.",
     ),
+    "C08": (
+        "fault_enumeration", "DESIGN.md §4 C08, §2.3",
+        "schedule enumeration through hook H1 (all k! completion orders of the object-stream blocks, k<=6) + sampling of real schedules on rayon pools of 1..16 threads with injected delays; digest oracle against the sequential build",
+        "The only place where thread completion order can reach the loaded document (the accumulator merged after the parallel phase) is enumerated exhaustively per file via the hook; real interleavings are sampled with delays and the distinct completion orders observed are reported; every digest is compared with the no-default-features build.",
+        "Hook H1 is add-only and compiled only with --cfg lopdf_verif. Interleavings inside the parsing of a single object are sampled, not enumerated.",
+    ),
+    "C12": (
+        "exploration", "DESIGN.md §4 C12",
+        "runtime monitor: depth-first reference model of generated page trees compared with page_iter()/get_pages() inside isolated workers; process monitor for malformed variants",
+        "Page trees of every shape up to the documented depth limit with shuffled object ids and direct/indirect Kids are enumerated by the real iterator and compared with the model's DFS order; malformed variants must terminate within the CPU budget and yield only Page dictionaries.",
+        "Trusted: the tree model. Workers are watched for signals, panics, CPU time and allocations.",
+    ),
     "C13": (
         "exploration", "DESIGN.md §4 C13, §2.1",
         "process-level runtime monitor (signals, panic hook, CPU time, allocator) around every public read-only query on typed-chaos object graphs and long-chain templates",
@@ -62,6 +74,10 @@ NOT_YET = {
 }
 
 
+import subprocess
+HOOK_COMMITS = subprocess.check_output(["git", "-C", "/repo", "log", "--format=%H", "--grep=^verif hook"]).decode().split()
+
+
 def main():
     props = [json.loads(l) for l in open(os.path.join(VERIF, "properties.jsonl"))]
     checks = []
@@ -90,7 +106,7 @@ def main():
             "guard": "lopdf_verif",
             "enable": "RUSTFLAGS=\"--cfg lopdf_verif\" (set by ./check for every harness build; the harness depends on /repo by path, so every check rebuilds lopdf from the current working tree)",
             "baseline_off_cmd": "cd /repo && cargo test --workspace --no-fail-fast --offline",
-            "source_commits": [],
+            "source_commits": HOOK_COMMITS,
             "add_only": True,
         },
         "engines": [
